@@ -742,6 +742,107 @@ def reader_case(case):
     return res
 
 
+WRITER_FLAGS = {
+    "dkvp": ["--odkvp"], "nidx": ["--onidx"], "csv": ["--ocsv"], "csvlite": ["--ocsvlite"], "tsv": ["--otsv"], "json": ["--ojson"],
+    "json-jvstack-off": ["--ojson", "--no-jvstack"], "jsonl": ["--ojsonl"], "xtab": ["--oxtab"], "pprint": ["--opprint"],
+    "pprint-barred": ["--opprint", "--barred"], "pprint-right": ["--opprint", "--right"], "markdown": ["--omd"], "yaml": ["--oyaml"],
+    "csv-quote-all": ["--ocsv", "--quote-all"], "csv-headerless": ["--ocsv", "--headerless-csv-output"], "dkvp-ofmt": ["--odkvp", "--ofmt", "%.3lf"],
+}
+
+
+def writer_case(case):
+    """The writer side of monitor r: one stream of n records (a schema change in the middle for the formats that print a new
+    header block) through every record writer; stdout must be byte-identical at every batch size, must contain every id
+    exactly once in input order, and the same commands run under the race detector."""
+    rng = random.Random(case["seed"])
+    fmt, n, race = case["fmt"], case["n"], case.get("race", False)
+    res = case_result(_h("rw", fmt, n, race, case["seed"]), nontrivial=n > 500)
+    recs = []
+    for j in range(n):
+        r = [("id", f"r{j + 1}"), ("a", rng.choice(gen.A_POOL)), ("i", str(rng.randint(-20, 60))), ("x", f"{rng.uniform(-5, 5):.4f}")]
+        if case.get("schema_change") and j >= n // 2:
+            r.append(("extra", rng.choice(["u", "vv"])))
+        recs.append(r)
+    data = gen.dkvp(recs).encode()
+    oflags = WRITER_FLAGS[fmt]
+    ref = None
+    binary = "mlr-race" if race else "mlr-verif"
+    for b in case["bs"]:
+        vflags = ["--records-per-batch", str(b)] if b else []
+        argv = vflags + ["--idkvp"] + oflags + ["cat"]
+        env = {"MLR_VERIF_SCHED": case["sched"]} if case.get("sched") else {}
+        r = R.mlr(argv, stdin=data, env=env, binary=binary, cpu_s=120 if race else 30, watchdog=240 if race else 90)
+        bump(res, "runs")
+        bump(res, "writer:" + fmt)
+        detail = {"argv": argv, "writer": fmt, "n_records": n, "batch": b, "binary": binary, "env": env, "input_head": data[:400].decode(),
+                  "schema_change_at_record": n // 2 + 1 if case.get("schema_change") else None}
+        if _hang_violation(res, r, argv, f"writer {fmt} batch {b}", detail):
+            continue
+        if r.verdict != "exited":
+            res["inconc"] += 1
+            continue
+        if race:
+            bump(res, "race_executions")
+            for rep in (r.race_reports or []):
+                for blk in rep.split("WARNING: DATA RACE")[1:]:
+                    if "github.com/johnkerl/miller" not in blk:
+                        continue
+                    import re
+                    top = []
+                    for part in re.split(r"\n\s*\n", blk):
+                        m = re.search(r"^\s+(github\.com/johnkerl/miller/v6/\S+?)\(", part, re.M)
+                        if m and ("Read at" in part or "Write at" in part or "Previous" in part):
+                            top.append(m.group(1).replace("github.com/johnkerl/miller/v6/pkg/", ""))
+                    pair = "|".join(sorted(set(top[:2])))
+                    bump(res, "race_reports")
+                    add_violation(res, {"kind": "data-race", "pair": pair, "writer": fmt},
+                                  f"data race reported by the race detector in the {fmt} writer path between {pair}", dict(detail, report=blk[:5000]))
+        if r.crashed():
+            add_violation(res, {"kind": "crash", "writer": fmt}, f"writer {fmt}, batch {b}: crash trace", dict(detail, stderr=r.err[-3000:]))
+            continue
+        if r.rc != 0:
+            add_violation(res, {"kind": "writer-exit", "writer": fmt}, f"writer {fmt}, batch {b}: exit {r.rc} on a valid stream: {r.err.strip()[:200]}",
+                          dict(detail, stderr=r.err[-2000:]))
+            continue
+        # every id exactly once, in input order (ids are delimited by a non-digit in every format)
+        import re
+        ids = [int(x) for x in re.findall(rb"\br(\d+)\b", r.stdout)]
+        if ids != list(range(1, n + 1)):
+            p_ = 0
+            while p_ < len(ids) and p_ < n and ids[p_] == p_ + 1:
+                p_ += 1
+            add_violation(res, {"kind": "writer-records", "writer": fmt},
+                          f"writer {fmt}, --records-per-batch {b or 'default'}: the ids in the output are not r1..r{n} once each in order: {len(ids)} ids, "
+                          f"{len(set(ids))} distinct, first deviation at position {p_ + 1} (got {ids[p_] if p_ < len(ids) else '<eof>'})",
+                          dict(detail, stdout_head=r.stdout[:1500].decode("utf-8", "replace")))
+            continue
+        if ref is None:
+            ref = (b, r.stdout)
+            bump(res, "writer_outputs_complete")
+        elif r.stdout != ref[1]:
+            add_violation(res, {"kind": "writer-batch-dependent", "writer": fmt},
+                          f"writer {fmt}: stdout at --records-per-batch {b or 'default'} differs from --records-per-batch {ref[0] or 'default'} ({len(r.stdout)} vs {len(ref[1])} bytes)",
+                          dict(detail, ref_batch=ref[0]))
+        else:
+            bump(res, "writer_outputs_identical_across_batch_sizes")
+    res["sample"] = {"monitor": "r/writers", "format": fmt, "n_records": n, "batches": case["bs"], "race": race}
+    return res
+
+
+def writer_cases(chk):
+    rng = chk.rng("writers")
+    q = chk.quick()
+    cases = []
+    for fmt in WRITER_FLAGS:
+        sc = fmt in ("csvlite", "pprint", "pprint-barred", "pprint-right", "xtab", "json", "jsonl", "dkvp", "markdown", "yaml", "json-jvstack-off", "dkvp-ofmt")
+        for n in ([1003, 2501] if q else [1, 499, 500, 501, 1003, 2501, 20011]):
+            cases.append({"seed": f"{chk.seed}/rw/{fmt}/{n}", "fmt": fmt, "n": n, "bs": [0, 1, 7, 100] if n <= 2600 else [0, 100, 1000],
+                          "schema_change": sc and n > 2})
+        cases.append({"seed": f"{chk.seed}/rw-race/{fmt}", "fmt": fmt, "n": 2501, "bs": [7, 0] if q else [7, 100, 0], "race": True, "schema_change": sc,
+                      "sched": rng.choice(["", f"{rng.randint(1, 10**6)}:300"])})
+    return cases
+
+
 def reader_cases(chk):
     rng = chk.rng("readers")
     q = chk.quick()
@@ -1067,7 +1168,8 @@ def run(chk):
                 "e: one-record-at-a-time streaming sessions; f: every builtin function used with two different constant argument sets in chained puts: "
                 "race detector at batch size 2 + differential against the one-batch run; r: every record reader (dkvp, nidx, csv, csvlite, tsv, json, jsonl, "
                 "xtab, pprint, markdown) and decompressing path (gz, bz2, zlib) on inputs of 499..6100 (thorough 20011) records: identity chain output equal to "
-                "the generator's record list and identical at every batch size, plus the same commands under the race detector. Non-trivial = input spans >= 2 batches and chain has >= 2 verbs or an early-exit verb; "
+                "the generator's record list and identical at every batch size, plus the same commands under the race detector; likewise every record writer (17 output "
+                "flag sets, schema change mid-stream where the format prints header blocks): ids r1..rn once each in order, bytes identical at every batch size, race detector. Non-trivial = input spans >= 2 batches and chain has >= 2 verbs or an early-exit verb; "
                 "distinct = by generator seed of the case")
     if not only or "a" in only:
         n = 110 if q else 1400
@@ -1098,6 +1200,9 @@ def run(chk):
         rc_ = reader_cases(chk)
         chk.extra["r_reader_cases"] = len(rc_)
         chk.pmap(reader_case, rc_, label="r reader formats")
+        wc_ = writer_cases(chk)
+        chk.extra["r_writer_cases"] = len(wc_)
+        chk.pmap(writer_case, wc_, label="r writer formats")
     if not only or "f" in only:
         fc = func_cases(chk)
         chk.extra["f_function_twins"] = len(fc)
